@@ -73,12 +73,11 @@ static void summary(void)
 		delivered_short, delivered_eintr, delivered_fail, data_calls);
 }
 
-static void init(void)
+__attribute__((constructor)) static void init(void)
 {
 	const char *m;
 	if (inited)
 		return;
-	inited = 1;
 	r_read = dlsym(RTLD_NEXT, "read");
 	r_write = dlsym(RTLD_NEXT, "write");
 	r_pread = dlsym(RTLD_NEXT, "pread64");
@@ -90,8 +89,10 @@ static void init(void)
 	r_lseek = dlsym(RTLD_NEXT, "lseek64");
 	r_close = dlsym(RTLD_NEXT, "close");
 	m = getenv("VERIF_IO_MODE");
-	if (!m)
+	if (!m) {
+		inited = 1;
 		return;
+	}
 	if (!strcmp(m, "count")) mode = M_COUNT;
 	else if (!strcmp(m, "short")) mode = M_SHORT;
 	else if (!strcmp(m, "fail")) mode = M_FAIL;
@@ -124,6 +125,8 @@ static void init(void)
 	if (getenv("VERIF_IO_TARGET"))
 		strncpy(target, getenv("VERIF_IO_TARGET"), sizeof(target) - 1);
 	atexit(summary);
+	__sync_synchronize();
+	inited = 1;
 }
 
 static unsigned int rnd(void)
